@@ -8,11 +8,11 @@ from harness.common import *
 import vlib
 
 LEVEL_TEXT = ('Lean 4 theorems, for all shapes/offsets/data: extent queries = sets of pixel coordinates; product = pointwise product of '
-              'embeddings; merge = sum (also for 0-d fields and (1,1) arrays at the origin); the MODEL of reduce terminates with fuel = '
-              'number of fields, is total, preserves the total and yields pairwise non-overlapping fields for every collection of '
-              'positive-shape fields (the Python _disjoint recurses once per merge: beyond ~990 merges it raises RecursionError, see '
-              'ASSUMPTIONS); a product fed into merge/reduce keeps emb a · emb b + the rest (product_then_merge/_reduce); boundary = '
-              'bounding box with the max side never below 0 (false of the pixel set for wholly negative collections: reported finding); public merge = sum of the two embeddings, refused iff overlap is enforced and no pixel is '
+              'embeddings; merge = sum (also for 0-d fields and (1,1) arrays at the origin); reduce terminates within as many merge steps as '
+              'there are fields (the Python _disjoint is a loop whose iterations are the model\'s fuel steps), is total, preserves the '
+              'total and yields pairwise non-overlapping fields for every collection of positive-shape fields of any size; a product '
+              'fed into merge/reduce keeps emb a · emb b + the rest (product_then_merge/_reduce); boundary = the exact bounding box of '
+              'the pixel sets for every non-empty collection (boundary_is_bbox), wholly negative ones included; public merge = sum of the two embeddings, refused iff overlap is enforced and no pixel is '
               'shared; public overlap = common pixel (2 fields) / reduce leaves one field carrying the total (otherwise) — their '
               'branch tests, the dispatch of __mul__, the merge test of reduce and the step of _disjoint are generated from the '
               'source (Gen.FieldDispatch) and consumed by the models; insert adds '
@@ -21,7 +21,7 @@ LEVEL_TEXT = ('Lean 4 theorems, for all shapes/offsets/data: extent queries = se
               'model checked against the implementation on exact Gaussian-integer data, with operand snapshots (inputs byte-identical '
               'afterwards, results share no memory with operands, same call twice = same answer).')
 LEVEL_NOTE = ('Trusted: Lean kernel, py2lean subset semantics, NumPy slicing/broadcast semantics as modelled in Model/Field.lean and '
-              'Model/FieldZ.lean, NumPy same_kind casting of `out[...] += …`, the interpreter\'s recursion depth, generator coverage of the '
+              'Model/FieldZ.lean, NumPy same_kind casting of `out[...] += …`, generator coverage of the '
               'correspondence. Scope: two one-element fields multiply only at equal offsets (documented '
               'rule, a scope cut of the literal statement: mul_scalar_scalar_sem_partial); insert places a one-element (1,1) field as '
               'one pixel, not as an infinite constant; 0-d data is accepted only into a 0-d target at offset (0,0) (fast path, what '
@@ -52,33 +52,28 @@ RULE = ('cases: extent pairs, bounding boxes (boundary) of 1..5 fields incl. who
 TRUSTED = ['NumPy slicing/broadcasting semantics for data[slice] * data[slice], out[slice] += data and out[...] += 0-d data '
            '(modelled by hand in Model/Field.lean, Model/FieldZ.lean)',
            'NumPy casting rule (same_kind) of the in-place add in insert: complex128/complex64 targets take every term, float targets '
-           'take the real-valued intensity term only, integer targets none (sampled and judged by the oracle, not modelled)',
-           'the Python recursion limit (default 1000 frames): _disjoint makes one recursive call per merge']
+           'take the real-valued intensity term only, integer targets none (sampled and judged by the oracle, not modelled)']
 UNPROVEN = ['product of two one-element fields at DIFFERENT offsets: the code returns the empty product (documented rule of '
             'Field.__mul__, proved in full as mul_scalar_scalar_rule), not the product of two infinite constants as the property text '
             'reads literally; that reading is false of the code there (witness example in Props/C06.lean), so '
             'mul_scalar_scalar_sem_partial (equal offsets) cannot be completed by a proof — it is a scope cut of the statement']
-ASSUMPTIONS = ['the MODEL of merge/reduce never raises (mergeZ_total, reduce_defined, reduceZ_defined): on the single origin pixel the '
-               'merged data is 0-d iff every member is, else a (1,1) array (mergeZ_zero_d_iff). The real reduce/overlap raise '
-               'RecursionError when more than ~990 merges are needed (`_disjoint` recurses once per merge; 997 mutually overlapping '
-               'fields work from a top-level call, 998 do not): collections needing fewer merges than the recursion limit are '
-               'assumed; quick draws up to 70 fields, thorough/search add one reduce and one overlap of ~1200 mutually overlapping '
-               'fields whose documented outcome is RecursionError with the operands untouched (an answer must satisfy the property) '
-               'and one reduce of 1100 non-overlapping fields (no merge, must answer); candidate iterative _disjoint reported',
+ASSUMPTIONS = ['merge/reduce never raise (mergeZ_total, reduce_defined, reduceZ_defined): on the single origin pixel the merged data '
+               'is 0-d iff every member is, else a (1,1) array (mergeZ_zero_d_iff); _disjoint is a loop (recognised structurally by the '
+               'translator: scan in combinations order, merge the first intersecting pair, rescan), so there is no recursion bound: '
+               'thorough/search run one reduce and one overlap of ~1200 mutually overlapping fields and one reduce of 1100 '
+               'non-overlapping fields, which must answer and satisfy the property (the interpreted model is not run beyond 200 '
+               'fields: oracle only there)',
                'insert targets: complex128 (default) and complex64 take both branches; float64/float32 targets take intensity inserts '
                '(what Wavefront.intensity uses) and refuse field inserts, int64 targets refuse both (UFuncTypeError, target untouched) '
                'unless the field lies wholly outside — NumPy casting, judged by the oracle, not modelled (the model is generic in the '
                'value type)',
                'offsets are integer-valued (list, tuple, ndarray, np.int64 or integral floats are drawn); non-integer offsets are '
                'outside the documented interface (array_extent and insert truncate them differently)',
-               'boundary() returns the bounding box with rmax/cmax raised to at least 0: for collections with wholly negative rows or '
-               'columns this is NOT the bounding box of the pixel set (reported finding, candidate one-line patch); the oracle accepts '
-               'the exact box and the raised box, the model/theorems describe the raised box (boundary_is_bbox_general)',
+               'boundary_is_bbox is stated for extents within ±sys.maxsize (2^63 − 1), the range of the implementation\'s initial value',
                'the product of two one-element fields follows the documented rule: empty unless the offsets are equal',
                'reduce_spec / reduceZ_spec: input fields of positive shape, nothing else (reduce_disjoint / reduce_total keep the '
-               'hypothesis reduce fs = out.map some for their users; it is always satisfiable: reduce_defined); the fields of a merged group occupy boundary() of the group, which reaches up to '
-               'row/column 0 even for wholly negative members (boundary_is_bbox_general states this caveat; boundary_is_bbox is the '
-               'exact bounding box when some member reaches row >= 0 and column >= 0)',
+               'hypothesis reduce fs = out.map some for their users; it is always satisfiable: reduce_defined); the fields of a merged group occupy boundary() of the group, the exact bounding box of its '
+               'members (zero padding inside that box included)',
                'insert_emb uses the one-pixel embedding (emb), not the infinite-constant reading (sem), for a one-element (1,1) '
                'field; insert of 0-d data is outside the theorems: the implementation accepts it only into a 0-d target at offset (0,0) '
                'and refuses it (ValueError) into any other target; 1-D targets are refused (IndexError/ValueError) — both sampled '
@@ -198,8 +193,8 @@ def generate(rng, tier):
     # extremes stream: huge offsets, > 32 fields, long 1-D shapes (a small sample in quick/thorough, a large one in search)
     out += _extremes(rng, {'quick': n // 25, 'thorough': n // 20, 'search': n // 3}[tier], lmax=2600 if tier == 'search' else 500)
     if tier in ('thorough', 'search'):
-        # more merges than the interpreter's default recursion limit (~1000): `_disjoint` recurses once per merge. Expected on the
-        # unchanged tree: RecursionError (documented bound, see ASSUMPTIONS); if it answers, the property must hold
+        # more merges than the interpreter's default recursion limit (~1000): `_disjoint` used to recurse once per merge and raise
+        # RecursionError here (fixed defect: it is a loop now); these must answer and satisfy the property
         for kind in ('reduce', 'overlap'):
             nn = int(rng.integers(1150, 1300))
             fs = [gi_field(rng, (2, 2), (int(rng.integers(0, 2)), int(rng.integers(0, 2)))) for _ in range(nn)]
@@ -270,8 +265,8 @@ def _extremes(rng, n, lmax=2600):
             a = _field(rng, zero_d=True); c = _field(rng, zero_d=True)
             c['off'] = [a['off'][0] + int(rng.integers(-2, 3)), a['off'][1] + int(rng.integers(-2, 3))]
             out.append({'kind': 'mul', 'a': _shifted(a, b), 'b': _shifted(c, b), 'ext': 'huge-offset'})
-        elif t == 3:     # merge / reduce / overlap of a few fields near a huge POSITIVE offset (boundary reaches back to 0 otherwise)
-            b = _base(rng, signed=False); b = [max(x, 0) + 10 for x in b]
+        elif t == 3:     # merge / reduce / overlap of a few fields near a huge offset of either sign (the merged box must not reach back to 0)
+            b = _base(rng)
             fs = [_shifted(_field(rng, kmax=4, omax=4, zero_d=True), b) for _ in range(int(rng.integers(2, 6)))]
             kind = ('merge', 'reduce', 'reduce', 'overlap')[int(rng.integers(0, 4))]
             out.append({'kind': kind, 'fields': fs, 'ext': 'huge-offset'})
@@ -302,13 +297,10 @@ _SIDES = ('top', 'bottom', 'left', 'right')
 
 def _spanning(rng, m):
     """m fields of which the FIRST spans the bounding box of all (big field, the others wholly inside it; sometimes identical
-    extents): what an in-place "optimisation" of _merge corrupts. boundary() never returns rmax/cmax < 0, so the big field
-    must reach row/column >= 0 for its extent to be the whole box."""
+    extents): what an in-place "optimisation" of _merge corrupts. Anywhere on the plane, also wholly negative."""
     h, w = int(rng.integers(2, 8)), int(rng.integers(2, 8))
-    e = None
-    while e is None or e[1] < 0 or e[3] < 0:
-        off = [int(x) for x in rng.integers(-5, 6, 2)]
-        e = ext_of((h, w), off)
+    off = [int(x) for x in rng.integers(-9, 6, 2)]
+    e = ext_of((h, w), off)
     fs = [gi_field(rng, (h, w), off)]
     for _ in range(m - 1):
         if rng.integers(0, 4) == 0: fs.append(gi_field(rng, (h, w), off)); continue      # identical extent
@@ -487,6 +479,7 @@ def tags(c):
     if k == 'boundary':
         es = [ext_of(f['shape'], f['off']) for f in c['fields']]
         if max(e[1] for e in es) < 0 or max(e[3] for e in es) < 0: t.append('boundary:negative-side')
+    if k in ('merge', 'reduce', 'overlap', 'merge_public') and (max(ext_of(f['shape'], f['off'])[1] for f in c['fields']) < 0 or max(ext_of(f['shape'], f['off'])[3] for f in c['fields']) < 0): t.append(k + ':negative-side')
     if k == 'reduce': t.append(f"reduce:n={len(c['fields'])}" if len(c['fields']) <= 6 else 'reduce:n>6')
     if k in ('merge', 'reduce', 'merge_public', 'overlap'):
         fs = c['fields']; es = [ext_of(f['shape'], f['off']) for f in fs]
@@ -495,7 +488,7 @@ def tags(c):
             t.append(k + ':origin-ones>=2')
             if sum(e == (0, 0, 0, 0) and not _is0d(f) for e, f in zip(es, fs)) >= 1: t.append(k + ':origin-1x1-array')
         if len(fs) > 1:
-            box = (min(e[0] for e in es), max(0, max(e[1] for e in es)), min(e[2] for e in es), max(0, max(e[3] for e in es)))
+            box = (min(e[0] for e in es), max(e[1] for e in es), min(e[2] for e in es), max(e[3] for e in es))
             if es[0] == box: t.append(k + ':first-spans-box')
             if len(set(es)) < len(es): t.append(k + ':identical-extents')
     if k == 'merge_public':
@@ -771,8 +764,6 @@ def compare(c, io, mo):
     return None
 
 # ------------------------------------------------------------------------------------------ oracle (real code only)
-_RECURSION_BOUND = 900      # merges; the interpreter's default recursion limit is 1000 frames, some are used by the callers
-
 def _side(k, io):
     """operands byte-identical afterwards, result shares no memory with an operand, same call twice = same answer"""
     sd = io.get('side') or {}
@@ -783,13 +774,13 @@ def _side(k, io):
 
 def _ref_groups(es):
     """independent re-statement of the grouping of reduce/overlap: repeatedly merge the first pair (in combinations order) of
-    groups whose boxes intersect; a merged box is the bounding box of its members with the max side never below 0"""
+    groups whose boxes intersect; a merged box is the bounding box of its members"""
     gs = [([e], e) for e in es]
     while True:
         for m, n in itertools.combinations(range(len(gs)), 2):
             if _overlap(gs[m][1], gs[n][1]):
                 mem = gs[m][0] + gs[n][0]
-                box = (min(e[0] for e in mem), max(0, max(e[1] for e in mem)), min(e[2] for e in mem), max(0, max(e[3] for e in mem)))
+                box = (min(e[0] for e in mem), max(e[1] for e in mem), min(e[2] for e in mem), max(e[3] for e in mem))
                 gs[m] = (mem, box); gs.pop(n); break
         else:
             return gs
@@ -894,16 +885,10 @@ def oracle(c, io):
         if 'exc' in io: return f"boundary raised {io['exc']}: {io.get('msg')}"
         es = [ext_of(f['shape'], f['off']) for f in c['fields']]
         px = [(r, q) for e in es for r in (e[0], e[1]) for q in (e[2], e[3])]
-        # bounding box of the occupied pixels (the property's clause); the unchanged implementation never returns rmax/cmax below 0
-        # (boundary_is_bbox_general; reported as a finding) — that box is accepted too, anything else is wrong
+        # the bounding box of the occupied pixels, wherever they lie (the property's clause; boundary_is_bbox)
         exact = [min(p[0] for p in px), max(p[0] for p in px), min(p[1] for p in px), max(p[1] for p in px)]
-        raised = [exact[0], max(0, exact[1]), exact[2], max(0, exact[3])]
-        if io['extent'] in (exact, raised): return None
-        return f"boundary {io['extent']} is not the bounding box {exact} of the fields' pixels (nor that box with the max side raised to 0)"
+        return None if io['extent'] == exact else f"boundary {io['extent']} is not the bounding box {exact} of the fields' pixels"
     if k == 'overlap':
-        if io.get('exc') == 'RecursionError' and len(c['fields']) != 2 and \
-                len(c['fields']) - len(_ref_groups([ext_of(f['shape'], f['off']) for f in c['fields']])) > _RECURSION_BOUND:
-            return None      # documented bound (ASSUMPTIONS): `_disjoint` recurses once per merge
         if 'exc' in io: return f"overlap raised {io['exc']}: {io.get('msg')}"
         if not io['is_bool']: return 'overlap did not return a bool'
         es = [ext_of(f['shape'], f['off']) for f in c['fields']]
@@ -941,8 +926,6 @@ def oracle(c, io):
                 return None if io.get('exc') == 'ValueError' else 'merge of fields with different pixelscale was not refused'
             if c['enforce'] and not _overlap(es[0], es[1]):
                 return None if io.get('exc') == 'ValueError' else 'merge(enforce_overlap=True) of non-overlapping fields was not refused'
-        if k == 'reduce' and io.get('exc') == 'RecursionError' and len(fs) - len(_ref_groups(es)) > _RECURSION_BOUND:
-            return None      # documented bound (ASSUMPTIONS): `_disjoint` recurses once per merge; operands were checked untouched above
         if 'exc' in io: return f"{k} raised {io['exc']}: {io.get('msg')}"     # _merge never refuses (also (1,1) arrays at the origin)
         box = box_of([fs, io['fields']])
         if not np.array_equal(canvas(io['fields'], box), canvas(fs, box)): return f'{k} changed the total field'
